@@ -4,11 +4,25 @@ Router model, part 5 (drivers only): JSON case format shared by the drivers of C
   cfg  : {"ihc":bool, "ihdc":bool, "ipc":bool, "any":bool}
   rule : {"id":str, "rank":nat, "scheme":str?, "host":str?, "markers":"ds", "ips":[cidr]?,
           "methods":[str]?, "exclude":bool?, "headers":[{"name","kind","value"?}],
-          "datetime":[[nat?,nat?]]?, "time":[[nat?,nat?]]?, "weekdays":[nat]?, "path":str}
+          "datetime":[[bound,bound]]?, "time":[[bound,bound]]?, "weekdays":[nat | null]?, "path":str}
   cidr : {"neg":bool, "ip":[4 bytes | 8 groups], "bits":nat}
+  bound: null | nat | {"t":nat, "ns":nat?, …presentation…} | {"bad":text}
   req  : {"scheme":str?, "host":str?, "method":str?, "headers":[[name,value]], "ip":[..]?,
           "at":nat?, "path":str}
 A description the driver cannot parse is an error (never a default value).
+
+What the rule TEXTS look like is the harness's business (harness/src/router_gen.rs renders them); the model
+receives what the texts MEAN, and the few places where `api/rule.rs` silently drops a text are mirrored here:
+  * `datetime` bounds are UTC instants in epoch seconds — the harness writes them with any UTC offset
+    (`"off"` minutes, `"z"`), the model never sees the offset; `time` bounds are seconds since midnight (written
+    `HH:MM:SS` or `HH:MM`).  A bound with a sub-second fraction (`"ns" > 0`) is, for the whole-second instants
+    requests carry here, the next whole second (`x ≥ t + f ⇔ x ≥ t + 1`, `x < t + f ⇔ x < t + 1` for
+    integers `x`, `0 < f < 1`).  An unparsable bound text (`{"bad":…}`) is NO bound
+    (`RouteDateTime::from_range` / `RouteTime::from_range` log and leave `None`).
+  * a `cidr` whose prefix is longer than the address or whose host part is not zero is not a network for the
+    `cidr` crate: `Rule::route_ips` drops it, and a rule whose ranges are all dropped has no ip trigger.
+  * a week day the `chrono` parser rejects (`null` here) is dropped by `RouteWeekday::from_weekdays`; no day
+    left = no week-day trigger.
 -/
 import Lean.Data.Json
 import RioModel.Model.RouterParse
@@ -47,41 +61,63 @@ def ip (j : Json) : Except String Ip := do
     else throw "ip: group out of range"
   else throw "ip: expected 4 or 8 numbers"
 
-def routeIp (j : Json) : Except String RouteIp := do
+/-- `range.parse::<AnyIpCidr>()` on the text `"<ip>/<bits>"`: `none` = parse error (prefix longer than the
+address, or host part not zero) — the constraint is then dropped by `Rule::route_ips`. -/
+def cidrOf (a : Ip) (bits : Nat) : Option Cidr :=
+  let w := if a.v6 then 128 else 32
+  if bits > w then none
+  else if a.val % 2 ^ (w - bits) != 0 then none
+  else some ⟨a.v6, a.val, bits⟩
+
+def routeIp? (j : Json) : Except String (Option RouteIp) := do
   let a ← field j "ip" ip
   let bits ← field j "bits" nat
   let neg ← field j "neg" bool
-  let w := if a.v6 then 128 else 32
-  if bits > w then throw "cidr: prefix too long"
-  if a.val % 2 ^ (w - bits) != 0 then throw "cidr: host part not zero"
-  let c : Cidr := ⟨a.v6, a.val, bits⟩
-  return if neg then .notInRange c else .inRange c
+  return (cidrOf a bits).map fun c => if neg then .notInRange c else .inRange c
+
+/-- `Rule::route_ips`: the ranges that parse, in order. -/
+def routeIps (j : Json) : Except String (List RouteIp) := do
+  return (← arr routeIp? j).filterMap id
+
+/-- One bound of a date / time-of-day window (see the head of this file). -/
+def bound (x : Json) : Except String (Option Nat) :=
+  match x with
+  | .null => .ok none
+  | .obj _ =>
+    match x.getObjVal? "bad" with
+    | .ok _ => .ok none
+    | .error _ => do
+      let t ← field x "t" nat
+      let ns ← opt? x "ns" nat
+      return some (if ns.getD 0 > 0 then t + 1 else t)
+  | v => v.getNat?.map some
 
 def drange (j : Json) : Except String DRange := do
   let a ← j.getArr?
   if a.size != 2 then throw "range: expected [start, end]"
-  let get (x : Json) : Except String (Option Nat) :=
-    match x with
-    | .null => .ok none
-    | v => v.getNat?.map some
-  return ⟨← get a[0]!, ← get a[1]!⟩
+  return ⟨← bound a[0]!, ← bound a[1]!⟩
+
+/-- a week day (0 = Monday), or `null` for a text the `chrono` parser rejects -/
+def weekday? (j : Json) : Except String (Option Nat) :=
+  match j with
+  | .null => .ok none
+  | v => do
+    let n ← v.getNat?
+    if n < 7 then return some n else throw "weekday out of range"
 
 def headerDesc (j : Json) : Except String HeaderDesc := do
   return ⟨← field j "name" str, ← field j "kind" str, ← opt? j "value" str⟩
 
 def rule (j : Json) : Except String RuleDesc := do
   let markers ← opt? j "markers" str
-  let wds ← opt? j "weekdays" (arr nat)
-  match wds with
-  | some ws => if !ws.all (· < 7) then throw "weekday out of range"
-  | none => pure ()
+  let wds := (← opt? j "weekdays" (arr weekday?)).map (List.filterMap id)
   return {
     id := ← field j "id" str
     rank := ← field j "rank" nat
     scheme := ← opt? j "scheme" str
     host := ← opt? j "host" str
     markers := (markers.getD "").toList
-    ips := ← opt? j "ips" (arr routeIp)
+    ips := ← opt? j "ips" routeIps
     methods := ← opt? j "methods" (arr str)
     exclude := ← opt? j "exclude" bool
     headers := (← opt? j "headers" (arr headerDesc)).getD []
